@@ -236,6 +236,97 @@ theorem icmp6SendPacket_tie (g : Mem) (hm dm smac sip dip msg : Bytes) (sport dp
       (by simp only [List.length_cons, List.length_nil, List.length_append, ip6Hdr, putChecksum, List.length_set];
           omega))
 
+/-! ### message builder + send: the exported ICMP senders and arp_spoofer `Reply` -/
+
+theorem builtBytes_eq (r : Outcome (Mem × Sl)) : builtBytes r = built r := rfl
+
+theorem ownOrNil_of_built (r : Outcome (Mem × Sl)) (x : Bytes) (h : built r = .ok x) : ownOrNil r = .ok x := by
+  cases r with
+  | ok v => exact h
+  | err e => cases h
+  | panic => cases h
+  | hang => cases h
+
+theorem naMarshal_length (r s o : Bool) (ip mac : Bytes) (hm : mac.length = 6) : (naMarshal r s o ip mac).length = 32 := by
+  simp [naMarshal, as16_len, hm]
+
+theorem nsMarshal_length (ip mac : Bytes) (hm : mac.length = 6) : (nsMarshal ip mac).length = 32 := by
+  simp [nsMarshal, hm]
+
+def hello : Bytes := [72, 69, 76, 76, 79, 45, 78, 69, 84, 70, 73, 76, 84, 69, 82]
+
+theorem reply_wrapper_tie (g : Mem) (hostMAC dst smac sip tmac tip : Bytes) (sport tport : Nat)
+    (h1 : hostMAC.length = 6) (h2 : dst.length = 6) (h3 : smac.length = 6) (h4 : sip.length = 4)
+    (h5 : tmac.length = 6) (h6 : tip.length = 4) (hcap : 42 ≤ g.length) :
+    Gen.Send.arp_spoofer_Reply g dst smac sip sport tmac tip tport hostMAC =
+      sendARP g hostMAC dst 2 smac sip tmac tip :=
+  reply_tie g hostMAC dst smac sip tmac tip sport tport h1 h2 h3 h4 h5 h6 hcap
+
+theorem icmp6SendNA_tie (g : Mem) (hm dm smac sip dip tmac tip : Bytes) (sport dport tport : Nat)
+    (h1 : hm.length = 6) (h2 : dm.length = 6) (h3 : sip.length = 16) (h4 : dip.length = 16)
+    (h5 : tmac.length = 6) (hfit : 86 ≤ g.length) :
+    Gen.Send.ICMP6SendNeighborAdvertisement g smac sip sport dm dip dport tmac tip tport hm =
+      sendICMP6 g hm dm sip dip (naMarshal false false true tip tmac) := by
+  unfold Gen.Send.ICMP6SendNeighborAdvertisement
+  have hl := naMarshal_length false false true tip tmac h5
+  rw [builtBytes_eq, naMarshal_tie false false true tip tmac tport h5]
+  exact icmp6SendPacket_tie g hm dm smac sip dip _ sport dport h1 h2 h3 h4 (by omega) (by omega) (by omega)
+
+theorem icmp6SendNS_tie (g : Mem) (hm dm smac sip dip tip : Bytes) (sport dport : Nat)
+    (h1 : hm.length = 6) (h2 : dm.length = 6) (h3 : sip.length = 16) (h4 : dip.length = 16)
+    (h5 : tip.length = 16) (hfit : 86 ≤ g.length) :
+    Gen.Send.ICMP6SendNeighbourSolicitation g smac sip sport dm dip dport tip hm =
+      sendICMP6 g hm dm sip dip (nsMarshal tip hm) := by
+  unfold Gen.Send.ICMP6SendNeighbourSolicitation
+  have hl := nsMarshal_length tip hm h1
+  rw [ownOrNil_of_built _ _ (nsMarshal_tie16 tip hm h5 h1)]
+  exact icmp6SendPacket_tie g hm dm smac sip dip _ sport dport h1 h2 h3 h4 (by omega) (by omega) (by omega)
+
+theorem echo_built (t : UInt8) (id seq : Nat) :
+    Gen.Enc.EncodeICMPEcho (List.replicate 23 0) (whole (List.replicate 23 0)) t 0 id seq hello =
+      .ok (encodeICMPEcho t 0 id seq hello, some ⟨0, 23⟩) := by
+  rw [encodeICMPEcho_tie _ _ _ _ _ _ (by decide)]
+  simp [hello]
+
+theorem icmp4SendEcho_tie (g : Mem) (hm dm smac sip dip : Bytes) (sport dport id seq : Nat)
+    (h1 : hm.length = 6) (h2 : dm.length = 6) (h3 : sip.length = 4) (h4 : dip.length = 4) (hfit : 57 ≤ g.length) :
+    Gen.Send.ICMP4SendEchoRequest g smac sip sport dm dip dport id seq hm =
+      sendICMP4 g hm dm sip dip (encodeICMPEcho 8 0 id seq hello) := by
+  unfold Gen.Send.ICMP4SendEchoRequest
+  rw [if_neg (by simp [h3, h4])]
+  have e := echo_built 8 id seq
+  unfold hello at e
+  simp only [e, bind_ok']
+  have hl : (encodeICMPEcho 8 0 id seq hello).length = 23 := by simp [encodeICMPEcho, hello]
+  unfold hello at hl
+  exact icmp4SendPacket_tie g hm dm smac sip dip _ sport dport h1 h2 h3 h4 (by omega) (by omega) (by omega)
+
+theorem icmp6SendEcho_tie (g : Mem) (hm dm smac sip dip : Bytes) (sport dport id seq : Nat)
+    (h1 : hm.length = 6) (h2 : dm.length = 6) (h3 : sip.length = 16) (h4 : dip.length = 16) (hfit : 77 ≤ g.length) :
+    Gen.Send.ICMP6SendEchoRequest g smac sip sport dm dip dport id seq hm =
+      sendICMP6 g hm dm sip dip (encodeICMPEcho 128 0 id seq hello) := by
+  unfold Gen.Send.ICMP6SendEchoRequest
+  rw [if_neg (by simp [h3, h4])]
+  have e := echo_built 128 id seq
+  unfold hello at e
+  simp only [e, bind_ok']
+  have hl : (encodeICMPEcho 128 0 id seq hello).length = 23 := by simp [encodeICMPEcho, hello]
+  unfold hello at hl
+  exact icmp6SendPacket_tie g hm dm smac sip dip _ sport dport h1 h2 h3 h4 (by omega) (by omega) (by omega)
+
+/-- the address-family guard of the echo senders -/
+theorem icmp4SendEcho_invalid (g : Mem) (hm dm smac sip dip : Bytes) (sport dport id seq : Nat)
+    (h : sip.length ≠ 4 ∨ dip.length ≠ 4) :
+    Gen.Send.ICMP4SendEchoRequest g smac sip sport dm dip dport id seq hm = .err .invalidIP := by
+  unfold Gen.Send.ICMP4SendEchoRequest
+  rw [if_pos (by simpa using h)]
+
+theorem icmp6SendEcho_invalid (g : Mem) (hm dm smac sip dip : Bytes) (sport dport id seq : Nat)
+    (h : sip.length ≠ 16 ∨ dip.length ≠ 16) :
+    Gen.Send.ICMP6SendEchoRequest g smac sip sport dm dip dport id seq hm = .err .invalidIP := by
+  unfold Gen.Send.ICMP6SendEchoRequest
+  rw [if_pos (by simpa using h)]
+
 /-! ### the lists emitted by the translator are the reviewed ones -/
 
 theorem translated_accounted : Gen.Send.sendersTranslated =
@@ -246,7 +337,17 @@ theorem translated_accounted : Gen.Send.sendersTranslated =
 theorem untranslated_accounted : Gen.Send.sendersUntranslated.map (·.1) =
     ["dhcp4_spoofer_SendDiscoverPacket", "dhcp4_spoofer_sendDeclineReleasePacket"] := by decide
 
-theorem ignored_accounted : Gen.Send.sendersIgnored = ["defer EtherBufferPool.Put"] := by decide
+theorem ignored_accounted : Gen.Send.sendersIgnored = ["defer EtherBufferPool.Put", "if Logger.IsDebug() { … }"] := by decide
+
+theorem wrappers_accounted : Gen.Send.wrappersTranslated =
+    ["ICMP4SendEchoRequest", "ICMP6SendEchoRequest", "ICMP6SendNeighborAdvertisement", "ICMP6SendNeighbourSolicitation",
+     "arp_spoofer_Reply"] := by decide
+
+/-- functions ending in a send-path call that are not translated: the RA / RS senders (their messages are built by the
+    allocating ndp marshal code), the ARP request builders (composite `Addr` literals) and the NBNS query builders -/
+theorem wrappers_untranslated_accounted : Gen.Send.wrappersUntranslated.map (·.1) =
+    ["ICMP6SendRouterAdvertisement", "ICMP6SendRouterSolicitation", "arp_spoofer_Probe", "arp_spoofer_Request",
+     "arp_spoofer_RequestTo", "dns_naming_SendNBNSNodeStatus", "dns_naming_SendNBNSQuery"] := by decide
 
 theorem dict_accounted : Gen.Send.sendersDict =
     ["Checksum = checksum", "Ether.Payload = etherPayloadSl (nil ↦ nilSl)",
